@@ -6,6 +6,8 @@ import (
 	"reflect"
 	"strconv"
 	"time"
+
+	"github.com/open2b/scriggo/native"
 )
 
 // ---- static library of named types (reflect cannot create named types,
@@ -34,6 +36,41 @@ func (k StrKey) String() string { return "<" + string(k) + ">" }
 type IntKey int
 
 func (k IntKey) String() string { return "#" + strconv.Itoa(int(k)) }
+
+// JSer implements native.JSStringer and native.JSONStringer with value
+// receivers, so that *JSer implements them too and a nil *JSer is a value of an
+// accepted type. MarshalJSON returns the same text as JSON, which makes
+// encoding/json the reference for the JSON context (null for a nil pointer).
+type JSer struct{ N int }
+
+func (v JSer) JS() native.JS     { return native.JS("[" + strconv.Itoa(v.N) + ",\"js\"]") }
+func (v JSer) JSON() native.JSON { return native.JSON("{\"n\":" + strconv.Itoa(v.N) + "}") }
+func (v JSer) MarshalJSON() ([]byte, error) {
+	return []byte(v.JSON()), nil
+}
+
+// Opts carries the json tag options other than omitempty and names that are
+// not valid for encoding/json (which then uses the Go field name).
+type Opts struct {
+	S    string    `json:"s,string"`
+	I    int       `json:"i,string"`
+	F    float64   `json:"f,string,omitempty"`
+	B    bool      `json:",string"`
+	U    uint8     `json:"u,omitempty,string"`
+	P    *int      `json:"p,string"`
+	L    []int     `json:"l,string"`
+	M    MyString  `json:"m,string"`
+	Z    int       `json:"z,omitzero"`
+	ZT   time.Time `json:"zt,omitzero"`
+	ZS   Inner     `json:"zs,omitzero"`
+	ZP   *int      `json:"zp,omitzero"`
+	ZE   []int     `json:"ze,omitzero"`
+	ZB   []int     `json:"zb,omitempty,omitzero"`
+	Bad1 int       `json:"x\\y"`
+	Bad2 string    `json:"a'b,omitempty"`
+	Bad3 bool      `json:"q\"r"`
+	Last int
+}
 
 type Inner struct {
 	A int
@@ -172,6 +209,8 @@ var named = map[string]reflect.Type{
 	"Times":        reflect.TypeFor[Times](),
 	"Anys":         reflect.TypeFor[Anys](),
 	"Mixed":        reflect.TypeFor[Mixed](),
+	"JSer":         reflect.TypeFor[JSer](),
+	"Opts":         reflect.TypeFor[Opts](),
 }
 
 var namedByType = func() map[reflect.Type]string {
